@@ -107,6 +107,23 @@ func runCase(c *FuzzCase) (res FuzzResult) {
 		}
 	}()
 	runtime.ReadMemStats(&m1) // (the allocation bound is about one decode of the frame: measured before the second pass)
+	if res.Outcome != "panic" && m1.TotalAlloc-m0.TotalAlloc > 128<<10 {
+		// A big figure may be a one-off of the process rather than of the frame: the first decode after the child started
+		// fills type caches and page/decompressor pools (about 550 KB), and so does the first one after a garbage collection
+		// emptied the sync.Pools.  An allocation that the frame's length fields demand comes back on every decode: decode
+		// again and keep the smaller figure.
+		var n0, n1 runtime.MemStats
+		runtime.ReadMemStats(&n0)
+		func() {
+			defer func() { recover() }()
+			_, m2, _ := protocol.ReadResponse(bufio.NewReader(bytes.NewReader(frame)), protocol.ApiKey(c.ApiKey), int16(c.V))
+			runtime.KeepAlive(m2)
+		}()
+		runtime.ReadMemStats(&n1)
+		if n1.TotalAlloc-n0.TotalAlloc < m1.TotalAlloc-m0.TotalAlloc {
+			m0, m1 = n0, n1
+		}
+	}
 	if res.Outcome != "panic" {
 		// the same frame with more bytes of the stream behind it (the next response): a length that reaches past the end of
 		// the frame then finds bytes to read instead of EOF
